@@ -577,7 +577,7 @@ Proof.
 Qed.
 
 (* ---- history: the failure clause was refuted on the faithful model of the source BEFORE the repair
-        (Cholesky_old; /repo 50a1217 added the info check) ---- *)
+        (Cholesky_old; /repo 3f16d24 added the info check) ---- *)
 (* explicit oracles for 1 x 1 systems: LAPACK's potrf on [[a]] answers (sqrt a, 0) for a > 0 and leaves
    a in place with info = 1 otherwise; potrs divides by l^2 *)
 Definition chol1 (up : bool) (A : matR) : xmat (F:=R) * Z :=
